@@ -153,6 +153,25 @@ mod verif_nx_parse {
         assert!(n > 80_000, "enumeration ran");
     }
 
+    // thorough tier only: all sequences of exactly 5 items over the 22-item alphabet, in 8 parallel shards
+    #[test]
+    fn verif_nx_parse_cover_len5_thorough() {
+        if std::env::var("VERIF_NX_THOROUGH").is_err() {
+            println!("NX parse_cover_len5_thorough: 0 cases (quick tier: skipped)");
+            return;
+        }
+        let handles: Vec<_> = (0..8usize).map(|k| std::thread::spawn(move || { let mut n = 0u64; enumerate(5, 8, k, &mut n); n })).collect();
+        let mut n = 0u64;
+        for h in handles {
+            match h.join() {
+                Ok(c) => n += c,
+                Err(e) => std::panic::resume_unwind(e),
+            }
+        }
+        println!("NX parse_cover_len5_thorough: {} cases", n);
+        assert!(n > 5_000_000, "enumeration ran");
+    }
+
     // all sequences up to length 4 (22^4 = 234 256 + shorter)
     #[test]
     fn verif_nx_parse_cover_len4() {
